@@ -89,7 +89,13 @@ class Context:
         self.lu_contracts = []  # list of z3 equalities from LU stubs (also in path assumptions)
         self.opaque = {}  # uninterpreted function applications
         self.path_assume = []  # assumptions added during the current path (LU contracts, stubs)
-        self.stats = dict(feas_queries=0, feas_time=0.0)
+        self.stats = dict(feas_queries=0, feas_time=0.0, merges=0)
+        self.merge = False  # reuse aux variables for terms that are equal modulo a proven lemma
+        self.abstract_div = False  # divisions by non-constant terms become definitional aux variables
+        self.aux_fp = []  # (kind, fingerprint, var(s), term(s))
+        self.quot = {}  # quotient var name -> (num, den)
+        self.quot_by_key = {}
+        self.lemmas = []  # (name, claim, pc, path_assume) obligations that justify merges
 
     def fresh(self, prefix):
         self.fresh_n += 1
@@ -364,10 +370,14 @@ class Sc:
         o = Sc.of(o)
         if is_zero(o.im):
             _note_div(o.re)
+            if CTX.abstract_div and not z3.is_rational_value(o.re):
+                return _quotient(s, o.re)
             return Sc(simp(s.re / o.re), ZERO if is_zero(s.im) else simp(s.im / o.re))
         d = simp(o.re * o.re + o.im * o.im)
         _note_div(d)
         n = s * o.conjugate()
+        if CTX.abstract_div:
+            return _quotient(n, d)
         return Sc(simp(n.re / d), simp(n.im / d))
 
     def __rtruediv__(s, o):
@@ -432,9 +442,15 @@ class Sc:
                     return Sc(z3.RealVal(str(r)))
         key = arg.sexpr()
         if key not in CTX.sqrt:
-            v = CTX.fresh("sqrt")
-            CTX.sqrt[key] = (v, arg)
-            CTX.assume.extend([v >= 0, v * v == arg])
+            merged = _try_merge("sqrt", [arg]) if CTX.merge else None
+            if merged is not None:
+                CTX.sqrt[key] = (merged[0], arg)
+            else:
+                v = CTX.fresh("sqrt")
+                CTX.sqrt[key] = (v, arg)
+                # guarded definition: always satisfiable, so unreachable sqrt(negative) never makes a path vacuous
+                CTX.assume.append(z3.Implies(arg >= 0, z3.And(v >= 0, v * v == arg)))
+                _register_aux("sqrt", [v], [arg])
         CTX.defined.append(("sqrt", arg, list(CTX.ctl.pc), list(CTX.path_assume)))
         return Sc(CTX.sqrt[key][0])
 
@@ -525,6 +541,76 @@ class Sc:
 
     def __complex__(s):
         raise Unsupported("complex() of a symbolic scalar")
+
+
+def _quotient(num, den):
+    """Definitional abstraction of num/den (den a real term): q with den != 0 -> q*den == num."""
+    parts = []
+    for n in (num.re, num.im):
+        if is_zero(n):
+            parts.append(ZERO)
+            continue
+        key = "(/ " + n.sexpr() + " " + den.sexpr() + ")"
+        if key in CTX.quot_by_key:
+            parts.append(CTX.quot_by_key[key])
+            continue
+        merged = _try_merge("quot", [n, den]) if CTX.merge else None
+        if merged is not None:
+            q = merged[0]
+        else:
+            q = CTX.fresh("quot")
+            CTX.quot[q.decl().name()] = (n, den)
+            CTX.assume.append(z3.Implies(den != 0, q * den == n))
+            _register_aux("quot", [q], [n, den])
+        CTX.quot_by_key[key] = q
+        parts.append(q)
+    return Sc(parts[0], parts[1])
+
+
+def _fingerprint(kind, terms):
+    from . import feval
+
+    fps = []
+    for seed in (1, 2, 3):
+        env = feval.HashEnv(CTX, seed)
+        try:
+            vals = [env.eval(t) for t in terms]
+            if kind == "sqrt":
+                fps.append(vals[0])
+            else:
+                if vals[1] == 0:
+                    return None
+                fps.append(vals[0] / vals[1])
+        except (feval.Reject, KeyError, NotImplementedError, OverflowError, ZeroDivisionError):
+            return None
+    return tuple(fps)
+
+
+def _register_aux(kind, vars_, terms):
+    if not CTX.merge:
+        return
+    fp = _fingerprint(kind, terms)
+    if fp is not None:
+        CTX.aux_fp.append((kind, fp, vars_, terms))
+
+
+def _try_merge(kind, terms):
+    fp = _fingerprint(kind, terms)
+    if fp is None:
+        return None
+    for (k2, fp2, vars2, terms2) in CTX.aux_fp:
+        if k2 != kind:
+            continue
+        if all(abs(a - b) <= 1e-9 * max(1.0, abs(a), abs(b)) for a, b in zip(fp, fp2)):
+            if kind == "sqrt":
+                claim = terms[0] == terms2[0]
+            else:  # n/d == n2/d2  <=  n*d2 == n2*d (both denominators non-zero is a definedness obligation)
+                claim = terms[0] * terms2[1] == terms2[0] * terms[1]
+            # stated without path condition: once valid it justifies the merge on every path of the case
+            CTX.lemmas.append((f"merge-{kind}:{vars2[0]}", claim, [], []))
+            CTX.stats["merges"] += 1
+            return vars2
+    return None
 
 
 def _note_div(den):
